@@ -15,18 +15,19 @@ def grind(r, make, want_later_than):
 def explore(ck):
     r = ck.rng; quick = ck.tier == 'quick'
     ck.rule = ('indexes = active chain + header-only records (status validity TREE, no data; at, below and beyond the tip; arbitrary header bytes incl. 0xff.. versions), failed blocks, '
-               'stale siblings with and without data at occupied heights in both hash orders (nonce grinding), pruned-looking records; exhaustive sweep of all 256 status bytes through the record '
+               'stale siblings with and without data at occupied heights in both hash orders (nonce grinding), pruned-looking records; indexes of 50-110 records with 8-15 competitors; exhaustive sweep of all 256 status bytes through the record '
                'decoder/filter hook. Expected: delivered = active chain, prev-links hold, no competitor transaction in any output. Cases where an admitted competitor sorts after the active block at '
                'its height are the known-finding class F-C04 (implementation must then behave like the model). Non-trivial: >= 1 record besides the active chain; distinct by competitor description.')
     cases = []
     n = 30 if quick else 200
     for i in range(n):
         coin = gen.ALL_COINS[i % 8]
-        blocks = gen.random_chain(r, coin, r.randrange(3, 8), max_tx=2, script_kinds=['p2pkh', 'p2sh', 'opret_small'])
+        long = (i % 15 == 7)      # indexes of 50-110 records with 8-15 competitors: a loader that sorts or partitions the records behaves differently from 12 records on
+        blocks = gen.random_chain(r, coin, r.randrange(3, 8) if not long else r.randrange(45, 100), max_tx=(2 if not long else 1), script_kinds=['p2pkh', 'p2sh', 'opret_small'])
         c = Case('k%d' % i, coin).simple_layout(blocks); T = len(blocks) - 1; comp = []; inclass = False
         twin = Case('k%dspec' % i, coin).simple_layout(blocks)          # the same active chain without any competitor: its output is the property's expectation
-        for j in range(r.randrange(1, 5)):
-            kind = 'stale_data_after' if (i == 0 and j == 0) else r.choice(['header_only', 'header_only', 'header_beyond', 'failed_nodata', 'stale_data_before', 'stale_nodata', 'stale_data_after', 'failed_data_before', 'ff_header'])
+        for j in range(r.randrange(1, 5) if not long else r.randrange(8, 16)):
+            kind = 'stale_data_after' if (i == 0 and j == 0) else r.choice(['stale_data_before', 'failed_data_before', 'stale_data_before', 'header_only']) if long else r.choice(['header_only', 'header_only', 'header_beyond', 'failed_nodata', 'stale_data_before', 'stale_nodata', 'stale_data_after', 'failed_data_before', 'ff_header'])
             h = r.randrange(0, T + 1)
             mk = lambda: Block(blocks[h].prev, [coinbase_tx(h, [(50 * 10**8, P2PKH(gen.rb(r, 20)))], extra=gen.rb(r, 4))], time=r.getrandbits(31), nonce=r.getrandbits(32))
             if kind == 'header_only':
